@@ -12,7 +12,7 @@ use engine::*;
 use std::path::PathBuf;
 
 fn registry() -> Vec<&'static Prop> {
-    vec![&props::c01::PROP, &props::c03::PROP, &props::c09::PROP, &props::c10::PROP, &props::c04::PROP, &props::c06::PROP, &props::c07::PROP]
+    vec![&props::c01::PROP, &props::c03::PROP, &props::c09::PROP, &props::c10::PROP, &props::c04::PROP, &props::c06::PROP, &props::c07::PROP, &props::c08::PROP]
 }
 
 fn main() {
